@@ -25,6 +25,18 @@ def run_case(case, rec, cid):
     set_mode(case["mode"])
     rec.begin(cid)
     p = mk_tp(case["p"])
+    _one(case, rec, cid, p)
+    if case.get("also"):
+        # the same instant written in another offset / representation, formatted with the same format in the same process:
+        # each text must be that of ITS civil date-time
+        from harness.common import TimeZone
+        zh, zm = case["also"]
+        for q in (p.to_time_zone(TimeZone(hours=zh, minutes=zm)), p.to_week_date(), p.to_ordinal_date(), p.to_calendar_date().to_utc()):
+            _one(dict(case, strp=False), rec, cid, q)
+    return True
+
+
+def _one(case, rec, cid, p):
     toks = case["toks"]
     fmt = fmt_text(toks)
     pp = proj_tp(p)
@@ -109,7 +121,10 @@ def expand(job):
             yield {"mode": sp, "p": p, "toks": toks, "az": [0, 0], "strp": False}
             continue
         toks, _ = rand_format(rnd)
-        yield {"mode": sp, "p": p, "toks": toks, "az": rnd.choice([[0, 0], [5, 30], [-3, -30]]), "strp": True}
+        case = {"mode": sp, "p": p, "toks": toks, "az": rnd.choice([[0, 0], [5, 30], [-3, -30]]), "strp": True}
+        if rnd.random() < 0.25:
+            case["also"] = rnd.choice([[5, 30], [-3, -30], [13, 45], [-11, 0], [0, 0], [1, 0]])
+        yield case
 
 
 def jobs(tier, seed):
